@@ -15,6 +15,7 @@ import (
 	"bufio"
 	"bytes"
 	"context"
+	"crypto/tls"
 	"encoding/binary"
 	"encoding/json"
 	"errors"
@@ -25,6 +26,7 @@ import (
 	"os/exec"
 	"reflect"
 	"runtime"
+	"slices"
 	"sort"
 	"strconv"
 	"strings"
@@ -128,6 +130,10 @@ type connInfo struct {
 	handlerEnds atomic.Int64 // sequence number of the last handler end
 	termSeq     atomic.Int64 // sequence number of the terminate hook
 	notCancel   atomic.Int32 // waiting handlers that gave up without being cancelled
+	starts      atomic.Int32 // handlers started on this connection
+	hookGate    chan struct{} // when non-nil: the connect hook waits for it (the hook is user code)
+	hookIn      chan struct{} // closed when the connect hook has been entered
+	hookInO     sync.Once
 	// director: hold the first goroutine reaching `point` until release is closed
 	point    string
 	holdPt   string
@@ -155,6 +161,36 @@ type world struct {
 	handlerHold   chan struct{} // when non-nil: returning handlers wait for it
 	handlerBegun  chan struct{}
 	handlerOnce   sync.Once
+	blockCh       chan struct{} // behaviour "block": the handler waits for it (not for its context)
+	// accounting of the yield points (positive controls: a director that sees nothing is reported)
+	pointMu    sync.Mutex
+	pointN     map[string]int
+	unresolved atomic.Int32 // yield points whose object could not be mapped to one of our connections
+}
+
+func (w *world) countPoint(name string) {
+	w.pointMu.Lock()
+	if w.pointN == nil {
+		w.pointN = map[string]int{}
+	}
+	w.pointN[name]++
+	w.pointMu.Unlock()
+}
+
+func (w *world) points() map[string]int {
+	w.pointMu.Lock()
+	defer w.pointMu.Unlock()
+	out := map[string]int{}
+	for k, v := range w.pointN {
+		out[k] = v
+	}
+	return out
+}
+
+func (w *world) pointCount(name string) int {
+	w.pointMu.Lock()
+	defer w.pointMu.Unlock()
+	return w.pointN[name]
 }
 
 var theWorld atomic.Pointer[world]
@@ -166,7 +202,7 @@ func (w *world) info(id int) *connInfo {
 	defer w.mu.Unlock()
 	ci := w.conns[id]
 	if ci == nil {
-		ci = &connInfo{id: id, reached: make(chan struct{}), release: make(chan struct{})}
+		ci = &connInfo{id: id, reached: make(chan struct{}), release: make(chan struct{}), hookIn: make(chan struct{})}
 		w.conns[id] = ci
 	}
 	return ci
@@ -176,6 +212,10 @@ func (w *world) info(id int) *connInfo {
 // unexported field stream.inner is the net.Conn it was created with, or the net.Conn itself).
 func memConnOf(obj any) *memConn {
 	if mc, ok := obj.(*memConn); ok {
+		return mc
+	}
+	if tc, ok := obj.(*tls.Conn); ok {
+		mc, _ := tc.NetConn().(*memConn)
 		return mc
 	}
 	v := reflect.ValueOf(obj)
@@ -191,6 +231,9 @@ func memConnOf(obj any) *memConn {
 		return nil
 	}
 	x := reflect.NewAt(in.Type(), unsafe.Pointer(in.UnsafeAddr())).Elem().Interface()
+	if tc, ok := x.(*tls.Conn); ok {
+		x = tc.NetConn()
+	}
 	mc, _ := x.(*memConn)
 	return mc
 }
@@ -210,6 +253,10 @@ func verifYieldHook(point string, obj any) {
 	}
 	w.touch()
 	mc := memConnOf(obj)
+	w.countPoint(point)
+	if mc == nil {
+		w.unresolved.Add(1)
+	}
 	if point == "srv.accept.beforeAdd" {
 		n := w.acceptN.Add(1)
 		if h := w.acceptHold.Load(); h != 0 && n == h {
@@ -246,18 +293,21 @@ func verifYieldHook(point string, obj any) {
 		first := false
 		ci.reachedO.Do(func() { first = true; close(ci.reached) })
 		if first {
+			w.countPoint("held:" + ci.point)
 			select {
 			case <-ci.release:
-			case <-time.After(5 * time.Second):
+			case <-time.After(8 * time.Second):
 			}
 			w.touch()
 		}
 	}
 }
 
-// scripted handler: the behaviour is the UniqueIdentifier of the Activate request.
+// scripted handler: the behaviour is the UniqueIdentifier of the Activate request,
+// `<behaviour>[:<arg>[:<padding>]]` (the padding only makes the message bigger):
 //
-//	ok | kerr:<reason> | err | pstr | perr | pkerr:<reason> | pint | pstringer | pnil | wait | sleep:<ms>
+//	ok | kerr:<reason> | err | pstr | perr | pkerr:<reason> | pint | pstringer | pnil | pnilval | wait | sleep:<ms> | block
+//	poisoned outcomes (rendering them runs user code that panics): pnilerr | pbadstringer | pbaderr | pbadunwrap | rnilerr
 func scriptedHandler(ctx context.Context, req *payloads.ActivateRequestPayload) (*payloads.ActivateResponsePayload, error) {
 	w := theWorld.Load()
 	id := connIDOf(ctx)
@@ -269,6 +319,7 @@ func scriptedHandler(ctx context.Context, req *payloads.ActivateRequestPayload) 
 		}
 		w.running.Add(1)
 		ci.handlers.Add(1)
+		ci.starts.Add(1)
 		w.touch()
 		w.handlerOnce.Do(func() {
 			if w.handlerBegun != nil {
@@ -288,7 +339,11 @@ func scriptedHandler(ctx context.Context, req *payloads.ActivateRequestPayload) 
 			w.touch()
 		}()
 	}
-	beh, arg, _ := strings.Cut(req.UniqueIdentifier, ":")
+	parts := strings.SplitN(req.UniqueIdentifier, ":", 3)
+	beh, arg := parts[0], ""
+	if len(parts) > 1 {
+		arg = parts[1]
+	}
 	n, _ := strconv.Atoi(arg)
 	resp := &payloads.ActivateResponsePayload{UniqueIdentifier: req.UniqueIdentifier}
 	switch beh {
@@ -311,9 +366,34 @@ func scriptedHandler(ctx context.Context, req *payloads.ActivateRequestPayload) 
 	case "pnil":
 		var m map[string]int
 		m["x"] = 1
+	case "pnilval":
+		var v any
+		panic(v)
+	case "pnilerr":
+		var e *valueRecvErr // a typed nil pointer: its value-receiver Error method panics
+		panic(e)
+	case "rnilerr":
+		var e *valueRecvErr // the classic "typed nil returned as error"
+		return nil, e
+	case "pbadstringer":
+		panic(badStringer{})
+	case "pbaderr":
+		panic(badErr{})
+	case "pbadunwrap":
+		panic(badUnwrap{})
+	case "block":
+		if w != nil && w.blockCh != nil {
+			select {
+			case <-w.blockCh:
+			case <-time.After(8 * time.Second):
+			}
+		}
+		return resp, nil
 	case "wait":
 		select {
 		case <-ctx.Done():
+			// slow to notice: whoever is supposed to wait for this handler has to wait a little longer
+			time.Sleep(waitLinger)
 			return nil, kmipserver.Error{Reason: kmip.ResultReasonOperationCanceledByRequester, Message: "cancelled"}
 		case <-time.After(waitCap):
 			if ci != nil {
@@ -327,6 +407,29 @@ func scriptedHandler(ctx context.Context, req *payloads.ActivateRequestPayload) 
 	}
 	return resp, nil
 }
+
+// outcomes whose rendering (Error / String / Unwrap: user code) panics
+type valueRecvErr struct{ msg string }
+
+func (e valueRecvErr) Error() string { return e.msg }
+
+type badStringer struct{ p *string }
+
+func (s badStringer) String() string { return *s.p }
+
+type badErr struct{}
+
+func (badErr) Error() string { panic("scripted: Error() panics") }
+
+type badUnwrap struct{}
+
+func (badUnwrap) Error() string { return "scripted error with a panicking Unwrap" }
+func (badUnwrap) Unwrap() error { panic("scripted: Unwrap() panics") }
+
+var poisonBehaviours = []string{"pnilerr", "rnilerr", "pbadstringer", "pbaderr", "pbadunwrap"}
+
+// a cancelled waiting handler takes this long to return
+const waitLinger = 15 * time.Millisecond
 
 // a waiting handler gives up after this long (so that a scenario in which it is never cancelled
 // still terminates); the leak is observed well before.
@@ -349,14 +452,26 @@ type testServer struct {
 	serveC chan error
 }
 
-func newTestServer() *testServer {
+func newTestServer() *testServer { return newTestServerOn(false, nil) }
+
+// newTestServerOn: with a TLS listener (the accepted connections are *tls.Conn over the in-memory
+// pipes) and / or a wrapper around the request handler.
+func newTestServerOn(useTLS bool, wrap func(kmipserver.RequestHandler) kmipserver.RequestHandler) *testServer {
 	w := &world{conns: map[int]*connInfo{}, acceptReached: make(chan struct{}), acceptRelease: make(chan struct{})}
 	w.touch()
 	theWorld.Store(w)
 	exec := kmipserver.NewBatchExecutor()
 	exec.Route(kmip.OperationActivate, kmipserver.HandleFunc(scriptedHandler))
 	l := newMemListener()
-	srv := kmipserver.NewServer(l, exec).
+	var nl net.Listener = l
+	if useTLS {
+		nl = &tlsMemListener{memListener: l, cfg: harnessTLSConfig()}
+	}
+	var hdl kmipserver.RequestHandler = exec
+	if wrap != nil {
+		hdl = wrap(exec)
+	}
+	srv := kmipserver.NewServer(nl, hdl).
 		WithConnectHook(func(ctx context.Context) (context.Context, error) {
 			ci := w.info(connIDOf(ctx))
 			ci.connectN.Add(1)
@@ -364,6 +479,14 @@ func newTestServer() *testServer {
 				w.late.Store(true)
 			}
 			w.touch()
+			if ci.hookGate != nil {
+				ci.hookInO.Do(func() { close(ci.hookIn) })
+				select {
+				case <-ci.hookGate:
+				case <-time.After(8 * time.Second):
+				}
+				w.touch()
+			}
 			if ci.hookFail {
 				return nil, errors.New("scripted connect hook failure")
 			}
@@ -380,8 +503,8 @@ func newTestServer() *testServer {
 
 func (ts *testServer) start() { go func() { ts.serveC <- ts.srv.Serve() }() }
 
-// goroutines of the server's connections that are alive: M (handleConn), R (readloop), W (writeloop).
-func connGoroutines() (m, r, w int) {
+// allStacks: the goroutine profile as text, one block per goroutine.
+func allStacks() [][]byte {
 	buf := make([]byte, 1<<20)
 	for {
 		n := runtime.Stack(buf, true)
@@ -391,13 +514,31 @@ func connGoroutines() (m, r, w int) {
 		}
 		buf = make([]byte, 2*len(buf))
 	}
-	for _, g := range bytes.Split(buf, []byte("\n\n")) {
+	return bytes.Split(buf, []byte("\n\n"))
+}
+
+// hasFrame: the goroutine is executing (has a frame of) the function — "created by" lines do not count.
+func hasFrame(g []byte, fn string) bool {
+	for _, l := range bytes.Split(g, []byte("\n")) {
+		if bytes.HasPrefix(l, []byte(fn+"(")) {
+			return true
+		}
+	}
+	return false
+}
+
+const kmipserverPkg = "github.com/ovh/kmip-go/kmipserver."
+
+// goroutines of the server's connections that are alive: M (handleConn), R (readloop), W (writeloop).
+// (By function name: `selfTest` is the positive control that the names still match the library.)
+func connGoroutines() (m, r, w int) {
+	for _, g := range allStacks() {
 		switch {
-		case bytes.Contains(g, []byte("kmipserver.(*conn).readloop")):
+		case hasFrame(g, kmipserverPkg+"(*conn).readloop"):
 			r++
-		case bytes.Contains(g, []byte("kmipserver.(*conn).writeloop")):
+		case hasFrame(g, kmipserverPkg+"(*conn).writeloop"):
 			w++
-		case bytes.Contains(g, []byte("kmipserver.(*Server).handleConn")):
+		case hasFrame(g, kmipserverPkg+"(*Server).handleConn"):
 			m++
 		}
 	}
@@ -405,11 +546,9 @@ func connGoroutines() (m, r, w int) {
 }
 
 func serveGoroutines() int {
-	buf := make([]byte, 1<<20)
-	n := runtime.Stack(buf, true)
 	c := 0
-	for _, g := range bytes.Split(buf[:n], []byte("\n\n")) {
-		if bytes.Contains(g, []byte("kmipserver.(*Server).Serve")) {
+	for _, g := range allStacks() {
+		if hasFrame(g, kmipserverPkg+"(*Server).Serve") {
 			c++
 		}
 	}
@@ -454,9 +593,18 @@ func (w *world) waitQuiet(idle, max time.Duration, stop <-chan struct{}) {
 // ---------------------------------------------------------------------------------------------
 // client messages
 
-var behaviours = []string{"ok", "kerr:1", "err", "pstr", "perr", "pkerr:12", "pint", "pstringer", "pnil", "sleep:3", "kerr:9"}
+var behaviours = []string{"ok", "kerr:1", "err", "pstr", "perr", "pkerr:12", "pint", "pstringer", "pnil", "sleep:3", "kerr:9", "pnilval"}
 
-func goodRequest(idx int, beh string) []byte {
+func goodRequest(idx int, beh string) []byte { return paddedRequest(idx, beh, 0) }
+
+// paddedRequest: the same request made `pad` bytes bigger.
+func paddedRequest(idx int, beh string, pad int) []byte {
+	if pad > 0 {
+		if !strings.Contains(beh, ":") {
+			beh += ":"
+		}
+		beh += ":" + strings.Repeat("x", pad)
+	}
 	msg := kmip.NewRequestMessage(kmip.V1_4, &payloads.ActivateRequestPayload{UniqueIdentifier: beh})
 	msg.BatchItem[0].UniqueBatchItemID = binary.BigEndian.AppendUint32(nil, uint32(1000+idx))
 	return ttlv.MarshalTTLV(&msg)
@@ -502,20 +650,14 @@ func observeResponse(m *kmip.ResponseMessage) respObs {
 	return o
 }
 
-// expected (status, reason) of a scripted behaviour; reason 0xFFFFFFFF = any.
-func expectedResult(beh string) (failed bool, reason uint32) {
-	b, arg, _ := strings.Cut(beh, ":")
-	n, _ := strconv.Atoi(arg)
+// does the scripted behaviour make the item a failed one.
+func expectedFailed(beh string) bool {
+	b, _, _ := strings.Cut(beh, ":")
 	switch b {
-	case "ok", "sleep":
-		return false, 0
-	case "kerr", "pkerr":
-		return true, uint32(n)
-	case "wait":
-		return true, 0xFFFFFFFF
-	default:
-		return true, uint32(kmip.ResultReasonGeneralFailure)
+	case "ok", "sleep", "block":
+		return false
 	}
+	return true
 }
 
 // ---------------------------------------------------------------------------------------------
@@ -531,6 +673,8 @@ type connScen struct {
 	Behav []string `json:"behav"` // concrete behaviour of the handler of the i-th request ("r" kinds)
 	BadV  int    `json:"badv"`
 	Seed  uint64 `json:"seed"` // 0 = no random delays
+	Pad   int    `json:"pad"`  // the i-th request is made Pad+37*i bytes bigger
+	Coal  bool   `json:"coal"` // all the messages are handed to the transport in ONE write
 	// schedule only (not part of the scenario the model sees: the model covers every schedule)
 	RelMs     int    `json:"rel"`       // the goroutine held at the director's point is released this long after the client's close
 	HoldPoint string `json:"holdpoint"` // every goroutine arriving at this yield point ...
@@ -578,6 +722,12 @@ func (s *connScen) replayText() string {
 	if len(s.Behav) > 0 {
 		t += ",beh=" + strings.Join(s.Behav, "/")
 	}
+	if s.Pad != 0 {
+		t += ",pad=" + strconv.Itoa(s.Pad)
+	}
+	if s.Coal {
+		t += ",coal=1"
+	}
 	return t
 }
 
@@ -623,6 +773,10 @@ func parseConnScenText(t string) (*connScen, error) {
 			s.BadV, _ = strconv.Atoi(v)
 		case "beh":
 			s.Behav = strings.Split(v, "/")
+		case "pad":
+			s.Pad, _ = strconv.Atoi(v)
+		case "coal":
+			s.Coal = v == "1"
 		default:
 			return nil, errors.New("bad scenario key: " + k)
 		}
@@ -637,6 +791,7 @@ type connObs struct {
 	Terminate  int
 	TermAfter  bool // terminate hook ran after the last handler end
 	NotCancel  int
+	Running    int  // handlers of this connection still running when it was observed
 	ServerEOF  bool // the client read EOF / an error (the server closed) before the client closed
 	ClosedByUs bool
 	Reached    bool
@@ -652,6 +807,25 @@ func (s *connScen) behaviourOf(k int) string {
 		return s.Behav[k]
 	}
 	return "ok"
+}
+
+// pipelinedBehindWaiting: some request whose handler waits for its context is followed by another
+// request (decodable or not) on the same connection, and the client does close completely.
+func (s *connScen) pipelinedBehindWaiting() bool {
+	if s.Half {
+		return false
+	}
+	good := 0
+	for i, k := range s.Msgs {
+		if k != 'g' {
+			continue
+		}
+		if s.behaviourOf(good) == "wait" && strings.ContainsAny(s.Msgs[i+1:], "gb") {
+			return true
+		}
+		good++
+	}
+	return false
 }
 
 func runConnScenario(ts *testServer, id int, sc *connScen) (*connObs, error) {
@@ -693,18 +867,33 @@ func runConnScenario(ts *testServer, id int, sc *connScen) (*connObs, error) {
 	// writer
 	go func() {
 		good := 0
+		var all []byte
 		for i, k := range sc.Msgs {
 			var b []byte
 			switch k {
 			case 'g':
-				b = goodRequest(good, sc.behaviourOf(good))
+				pad := 0
+				if sc.Pad > 0 {
+					pad = sc.Pad + 37*good
+				}
+				b = paddedRequest(good, sc.behaviourOf(good), pad)
 				good++
 			case 'b':
 				b = badRequest(sc.BadV + i)
 			default:
 				b = skipMessage()
 			}
+			if sc.Coal {
+				all = append(all, b...)
+				continue
+			}
 			if _, err := cl.Write(b); err != nil {
+				return
+			}
+			w.touch()
+		}
+		if sc.Coal && len(all) > 0 {
+			if _, err := cl.Write(all); err != nil {
 				return
 			}
 			w.touch()
@@ -801,6 +990,7 @@ func finishConn(w *world, id int, obs *connObs, m, r, wr int) {
 	obs.Connect, obs.Terminate = int(ci.connectN.Load()), int(ci.terminateN.Load())
 	obs.TermAfter = ci.termSeq.Load() >= ci.handlerEnds.Load()
 	obs.NotCancel = int(ci.notCancel.Load())
+	obs.Running = int(ci.handlers.Load())
 	inv := 0
 	for _, r := range obs.Resps {
 		if r.Invalid {
@@ -826,10 +1016,13 @@ func c08Oracle(sc *connScen, o *connObs) []violOut {
 	clientEnded := !sc.Half || sc.Rd < 0
 	if o.Ended != "MRW" && clientEnded {
 		shape := "generic"
-		if strings.Contains(sc.Outs, "w") && strings.Count(sc.Msgs, "g")+strings.Count(sc.Msgs, "b") >= 2 {
+		if sc.pipelinedBehindWaiting() && o.Ended == "-" && o.Running > 0 {
+			// exactly the recorded open finding: nobody is reading the stream (the reader holds the
+			// pipelined message, the owner is in the waiting handler), so all three are kept and the
+			// handler is never cancelled
 			shape = "pipelined-waiting-handler"
 		}
-		add("keeps-goroutines", "kept-goroutines "+shape, fmt.Sprintf("after the client closed and %v of settling, goroutines still alive (ended=%s, waiting handlers never cancelled: %d)", settleTime, o.Ended, o.NotCancel))
+		add("keeps-goroutines", "kept-goroutines "+shape, fmt.Sprintf("after the client closed and %v of settling, goroutines still alive (ended=%s, handlers still running: %d)", settleTime, o.Ended, o.Running))
 	} else if o.NotCancel > 0 && clientEnded {
 		add("keeps-goroutines", "handler-not-cancelled", "a handler waiting for its context was never cancelled although the client had closed")
 	}
@@ -867,11 +1060,9 @@ func c08Oracle(sc *connScen, o *connObs) []violOut {
 		if r.ID != good {
 			add("order", "response-order", fmt.Sprintf("response %d answers request %d (expected %d)", i, r.ID, good))
 		} else {
-			failed, reason := expectedResult(sc.behaviourOf(good))
-			if (r.Status != uint32(kmip.ResultStatusSuccess)) != failed {
+			// (which Result Reason a failure is reported with is C09's business, not checked here)
+			if failed := expectedFailed(sc.behaviourOf(good)); (r.Status != uint32(kmip.ResultStatusSuccess)) != failed {
 				add("handler-outcome", "status-not-outcome", fmt.Sprintf("request %d (%s) answered with status %d", good, sc.behaviourOf(good), r.Status))
-			} else if failed && reason != 0xFFFFFFFF && r.Reason != reason {
-				add("handler-outcome", "reason-not-outcome", fmt.Sprintf("request %d (%s) answered with reason %d", good, sc.behaviourOf(good), r.Reason))
 			}
 			if r.Items != 1 {
 				add("handler-outcome", "item-count", fmt.Sprintf("request %d answered with %d items", good, r.Items))
@@ -899,6 +1090,14 @@ func c08Oracle(sc *connScen, o *connObs) []violOut {
 		if firstBad >= 0 && inv != 1 {
 			add("invalid-message", "invalid-not-answered", "an undecodable but correctly framed request on a live connection was not answered with one invalid-message response")
 		}
+		// the connection is ended by the server after the invalid-message response: the client, which
+		// keeps its side open, must see the end of the stream
+		if firstBad >= 0 && !o.ServerEOF {
+			add("invalid-message", "not-disconnected", "after the invalid-message response the server did not close the connection (the client still had it open when it gave up waiting)")
+		}
+	}
+	if sc.Cl == "q" && sc.Rd < 0 && !sc.HkOK && !o.ServerEOF {
+		add("hooks", "not-disconnected", "the connect hook failed but the server did not close the connection")
 	}
 	// hooks of this connection
 	if o.Connect != 1 {
@@ -927,9 +1126,11 @@ const quietIdle = 120 * time.Millisecond
 
 type ltsJob struct {
 	Idx   int         `json:"idx"`
-	Sys   string      `json:"sys"` // srvconn | server
+	Sys   string      `json:"sys"` // srvconn | server | iso | tls
 	Conns []*connScen `json:"conns,omitempty"`
 	Srv   *srvScen    `json:"srv,omitempty"`
+	Iso   *isoScen    `json:"iso,omitempty"`
+	TLS   *tlsScen    `json:"tls,omitempty"`
 }
 
 type ltsRes struct {
@@ -939,6 +1140,82 @@ type ltsRes struct {
 	Error    string     `json:"error,omitempty"`
 	Obs      []*connObs `json:"obs,omitempty"`
 	Note     string     `json:"note,omitempty"`
+	// positive controls
+	Points     map[string]int `json:"points,omitempty"`     // yield points seen during the job
+	Unresolved int            `json:"unresolved,omitempty"` // … whose object was not one of our connections
+	Counts     map[string]int `json:"counts,omitempty"`     // whatever else the job wants counted
+}
+
+func (r *ltsRes) count(key string) {
+	if r.Counts == nil {
+		r.Counts = map[string]int{}
+	}
+	r.Counts[key]++
+}
+
+// takeControls copies the world's yield-point accounting into the result.
+func (r *ltsRes) takeControls(w *world) {
+	r.Points = w.points()
+	r.Unresolved = int(w.unresolved.Load())
+}
+
+// selfTest is the POSITIVE CONTROL of the observation machinery, run once in every child process
+// before its first job: while one connection is being served the goroutine profile must show exactly
+// one owner, one reader, one writer and one accept loop (the leak oracles read the profile by function
+// name: if the names no longer match, they would see "no goroutine left" for ever), the yield points
+// must fire and be attributed to that connection (otherwise the schedule director is inert), and the
+// counts must return to zero. A failure makes every job of the child fail loudly.
+func selfTest() error {
+	ts := newTestServer()
+	ts.start()
+	defer theWorld.Store(nil)
+	cl, err := ts.l.dial(1, 2*time.Second)
+	if err != nil {
+		return fmt.Errorf("dial: %v", err)
+	}
+	if _, err := cl.Write(goodRequest(0, "ok")); err != nil {
+		return fmt.Errorf("write: %v", err)
+	}
+	var resp kmip.ResponseMessage
+	st := ttlv.NewStream(cl, 1<<20)
+	if err := st.Recv(&resp); err != nil {
+		return fmt.Errorf("no response: %v", err)
+	}
+	m, r, w := connGoroutines()
+	a := serveGoroutines()
+	if m != 1 || r != 1 || w != 1 || a != 1 {
+		return fmt.Errorf("goroutine profile of one live connection: handleConn=%d readloop=%d writeloop=%d Serve=%d (expected 1 each): the function names the leak oracles look for no longer match the library", m, r, w, a)
+	}
+	if ts.w.pointCount("srv.accept.beforeAdd") != 1 || ts.w.pointCount("srv.read.beforeRx") != 1 ||
+		ts.w.pointCount("srv.beforeSend") != 1 || ts.w.pointCount("srv.send.loaded") != 1 {
+		return fmt.Errorf("yield points seen while serving one request: %v (expected accept.beforeAdd, read.beforeRx, beforeSend, send.loaded once each)", ts.w.points())
+	}
+	if u := ts.w.unresolved.Load(); u != 0 {
+		return fmt.Errorf("%d yield points passed an object that could not be mapped to the harness connection (fields stream/inner of kmipserver.conn changed?)", u)
+	}
+	_ = cl.Close()
+	if m, r, w := settle(2 * time.Second); m+r+w != 0 {
+		return fmt.Errorf("after the client closed: handleConn=%d readloop=%d writeloop=%d", m, r, w)
+	}
+	if ts.w.pointCount("srv.terminate.afterCancel") == 0 {
+		return fmt.Errorf("yield point terminate.afterCancel not seen at the end of a connection")
+	}
+	done := make(chan struct{})
+	go func() { _ = ts.srv.Shutdown(); close(done) }()
+	select {
+	case <-done:
+	case <-time.After(5 * time.Second):
+		return errors.New("Shutdown of an idle server did not return")
+	}
+	select {
+	case <-ts.serveC:
+	case <-time.After(2 * time.Second):
+		return errors.New("Serve did not return after Shutdown")
+	}
+	if a := serveGoroutines(); a != 0 {
+		return fmt.Errorf("Serve goroutines after Shutdown: %d", a)
+	}
+	return nil
 }
 
 // probe: a fresh connection must still be served.
@@ -1007,6 +1284,7 @@ func runConnJob(job *ltsJob) *ltsRes {
 		res.Viol = append(res.Viol, c08Oracle(sc, obs[i])...)
 	}
 	res.Obs = obs
+	res.takeControls(ts.w)
 	// the server keeps serving
 	if err := probe(ts, 99); err != nil {
 		res.Viol = append(res.Viol, violOut{"stays-available", "srv:probe-failed", "a new connection is not served after the scenario: " + err.Error()})
@@ -1039,6 +1317,7 @@ func childMain() {
 	in := bufio.NewReader(os.Stdin)
 	out := bufio.NewWriter(os.Stdout)
 	dec := json.NewDecoder(in)
+	control := selfTest()
 	for {
 		var job ltsJob
 		if err := dec.Decode(&job); err != nil {
@@ -1047,9 +1326,16 @@ func childMain() {
 		fmt.Fprintf(out, "#BEGIN %d\n", job.Idx)
 		out.Flush()
 		var res *ltsRes
-		if job.Sys == "server" {
+		switch {
+		case control != nil:
+			res = &ltsRes{Idx: job.Idx, Error: "POSITIVE CONTROL FAILED: " + control.Error()}
+		case job.Sys == "server":
 			res = runSrvJob(&job)
-		} else {
+		case job.Sys == "iso":
+			res = runIsoJob(&job)
+		case job.Sys == "tls":
+			res = runTLSJob(&job)
+		default:
 			res = runConnJob(&job)
 		}
 		b, _ := json.Marshal(res)
@@ -1317,6 +1603,34 @@ func genConnScenarios(ctx *Ctx) [][]*connScen {
 	}
 	// the shape in which the current code does not notice the disconnect (see C08.no_stuck)
 	one(&connScen{Msgs: "gg", Outs: "w", Rd: -1, Cl: "sent", HkOK: true})
+	// 4b. outcomes of a handler whose rendering runs user code that panics (typed nil error with a
+	//     value-receiver Error method, returned or used as panic value; Stringer / Error / Unwrap that
+	//     panic): "panic with any value" — the item fails, the process and the connection live on
+	for i, beh := range poisonBehaviours {
+		one(&connScen{Msgs: "g", Rd: -1, Cl: "q", HkOK: true, Behav: []string{beh}})
+		if ctx.Thor || i < 2 {
+			one(&connScen{Msgs: "ggg", Rd: -1, Cl: "q", HkOK: true, Behav: []string{"ok", beh, "ok"}})
+		}
+	}
+	// 4c. big requests, and several messages arriving in ONE read of the transport (pipelined in one
+	//     segment): sizes around the 512-byte initial buffer of Stream.Recv and its growth steps
+	pads := []int{0, 300, 444, 470, 600, 1500}
+	if ctx.Thor {
+		pads = append(pads, 100, 200, 400, 460, 480, 500, 520, 1000, 2000, 5000, 70000)
+	}
+	for i, pad := range pads {
+		for _, m := range []string{"gg", "ggg", "gsg", "ggb"} {
+			sc := &connScen{Msgs: m, Rd: -1, Cl: "q", HkOK: true, Pad: pad, Coal: true, BadV: i}
+			for q := 0; q < strings.Count(m, "g"); q++ {
+				sc.Behav = append(sc.Behav, behAt(k+q))
+			}
+			k++
+			one(sc)
+		}
+		if pad > 0 {
+			one(&connScen{Msgs: "gg", Rd: -1, Cl: "q", HkOK: true, Pad: pad})
+		}
+	}
 	// 5. random schedules: random delays at the yield points, random scripts
 	r := ctx.R
 	for i := ctx.N(120, 1500); i > 0; i-- {
@@ -1328,6 +1642,10 @@ func genConnScenarios(ctx *Ctx) [][]*connScen {
 		sc := &connScen{Msgs: string(m), Rd: -1, Cl: rng.Pick(r, points), Half: r.Chance(1, 4), HkOK: r.Chance(9, 10), BadV: r.Intn(3), Seed: r.U64() | 1}
 		if r.Chance(1, 4) {
 			sc.Rd = r.Intn(3)
+		}
+		if r.Chance(1, 5) {
+			sc.Coal = true
+			sc.Pad = rng.Pick(r, []int{0, 0, 200, 450, 700, 3000})
 		}
 		for j := 0; j < strings.Count(sc.Msgs, "g"); j++ {
 			sc.Behav = append(sc.Behav, rng.Pick(r, behaviours))
@@ -1379,8 +1697,49 @@ func runLtsSrv(ctx *Ctx) {
 	for i, g := range groups {
 		jobs[i] = &ltsJob{Idx: i, Sys: "srvconn", Conns: g}
 	}
+	// blocked-neighbour and TLS jobs (oracle only)
+	var extra []*ltsJob
+	if len(ctx.Replay) > 0 {
+		extra = replayExtraJobs(ctx.Replay)
+	} else {
+		for rep := 0; rep < ctx.N(1, 4); rep++ {
+			for _, b := range isoBlocks {
+				extra = append(extra, &ltsJob{Sys: "iso", Iso: &isoScen{Block: b, N: 2 + rep}})
+			}
+			extra = append(extra, &ltsJob{Sys: "iso", Iso: &isoScen{Block: "handler", N: 2, TLS: true}},
+				&ltsJob{Sys: "iso", Iso: &isoScen{Block: "hook", N: 2, TLS: true}})
+			for v := 0; v < 2; v++ {
+				extra = append(extra, &ltsJob{Sys: "tls", TLS: &tlsScen{Kind: "silent-peer", Var: v}})
+			}
+			extra = append(extra, &ltsJob{Sys: "tls", TLS: &tlsScen{Kind: "served-shutdown"}})
+		}
+	}
+	for _, j := range extra {
+		j.Idx = len(jobs)
+		jobs = append(jobs, j)
+	}
 	results := runJobs(jobs, ctx.N(6, 8), 8*time.Second)
 	seenLine := map[string]bool{}
+	points := map[string]int{}
+	unresolved := 0
+	for _, jr := range results {
+		if jr != nil && jr.res != nil {
+			for k, n := range jr.res.Points {
+				points[k] += n
+			}
+			for k, n := range jr.res.Counts {
+				ctx.Res.Distribution[k] += n
+			}
+			unresolved += jr.res.Unresolved
+		}
+	}
+	for _, j := range extra {
+		if j.Sys == "iso" {
+			reportExtraJob(ctx, "C08", "iso", j.Iso.text(), results[j.Idx])
+		} else {
+			reportExtraJob(ctx, "C08", "tls", j.TLS.text(), results[j.Idx])
+		}
+	}
 	for i, g := range groups {
 		jr := results[i]
 		line0 := connJobLine(g[0], "?")
@@ -1392,10 +1751,23 @@ func runLtsSrv(ctx *Ctx) {
 		if jr.crashed {
 			class := crashClass(jr.stderr)
 			names := make([]string, len(g))
+			poisoned := false
 			for j, sc := range g {
 				names[j] = sc.text()
+				for _, b := range sc.Behav {
+					if slices.Contains(poisonBehaviours, b) {
+						poisoned = true
+						names[j] += ",beh=" + strings.Join(sc.Behav, "/")
+					}
+				}
 			}
-			ctx.Res.Violate(report.Violation{Property: "C08", Oracle: "no-crash", Key: "srv:crash " + class,
+			key := "srv:crash " + class
+			if poisoned && (strings.Contains(jr.stderr, "kmipserver.handleBatchItemError") || strings.Contains(jr.stderr, "executeItem.func1")) {
+				// one finding whatever the value: rendering the handler's error / panic value (its Error,
+				// String, Unwrap methods: user code) panics outside any recover
+				key = "srv:crash rendering-handler-outcome"
+			}
+			ctx.Res.Violate(report.Violation{Property: "C08", Oracle: "no-crash", Key: key,
 				Detail: "the server process died while running [" + strings.Join(names, " | ") + "]: " + class + " at " + crashFrames(jr.stderr),
 				Line:   "lts.member srvconn " + g[0].replayText() + " resp=0 inv=0 ended=- hooks=c1t0 crash=1"})
 			ctx.Res.Count("srv.crashed")
@@ -1430,6 +1802,57 @@ func runLtsSrv(ctx *Ctx) {
 		}
 	}
 	ctx.Res.Count("srv.jobs=" + strconv.Itoa(len(jobs)))
+	// positive controls on the schedule director: every yield point must have been seen, every directed
+	// point must have held a goroutine at least once, and every object passed must have been ours
+	if len(ctx.Replay) == 0 {
+		for _, pt := range []string{"srv.accept.beforeAdd", "srv.read.beforeRx", "srv.beforeSend", "srv.send.loaded", "srv.write.beforeErr", "srv.terminate.afterCancel"} {
+			ctx.Res.Distribution["srv.yield:"+pt] += points[pt]
+			if points[pt] == 0 {
+				ctx.Res.Fail("yield point " + pt + " was never reached in the whole run: the schedules that depend on it were not explored (hook removed or renamed in kmipserver?)")
+			}
+		}
+		for _, pt := range []string{"beforeSend", "sendLoaded", "writeBeforeErr", "readBeforeRx", "afterCancel"} {
+			ctx.Res.Distribution["srv.held:"+pt] += points["held:"+pt]
+			if points["held:"+pt] == 0 {
+				ctx.Res.Fail("the director never held a goroutine at " + pt + ": the directed schedules were not explored")
+			}
+		}
+		for _, k := range []string{"iso.neighbour-served", "iso.live-profile-ok", "tls.neighbour-served"} {
+			if ctx.Res.Distribution[k] == 0 {
+				ctx.Res.Fail("coverage floor: " + k + " = 0")
+			}
+		}
+	}
+	if unresolved != 0 {
+		ctx.Res.Fail(fmt.Sprintf("%d yield points passed an object that could not be mapped to a harness connection", unresolved))
+	}
+}
+
+// replayExtraJobs: `# iso block=…,n=…[,tls=1]` and `# tls kind=…,var=…` lines.
+func replayExtraJobs(lines []string) []*ltsJob {
+	var out []*ltsJob
+	for _, l := range lines {
+		f := strings.Fields(l)
+		if len(f) < 3 || f[0] != "#" {
+			continue
+		}
+		kv := map[string]string{}
+		for _, p := range strings.Split(f[2], ",") {
+			k, v, _ := strings.Cut(p, "=")
+			kv[k] = v
+		}
+		for rep := 0; rep < 5; rep++ {
+			switch f[1] {
+			case "iso":
+				n, _ := strconv.Atoi(kv["n"])
+				out = append(out, &ltsJob{Sys: "iso", Iso: &isoScen{Block: kv["block"], N: max(n, 1), TLS: kv["tls"] == "1"}})
+			case "tls":
+				v, _ := strconv.Atoi(kv["var"])
+				out = append(out, &ltsJob{Sys: "tls", TLS: &tlsScen{Kind: kv["kind"], Var: v}})
+			}
+		}
+	}
+	return out
 }
 
 // ---------------------------------------------------------------------------------------------
@@ -1479,35 +1902,78 @@ type srvObs struct {
 	ServeErr     string
 	HandlersAtRe int // handlers running at the moment Shutdown returned
 	OwnersAtRet  int // handleConn goroutines alive at that moment
+	RWAtRet      int // readloop / writeloop goroutines alive at that moment
 	Late         bool
 	Conns        []string
 	Ended        bool
+	Resp         int
 	Outcome      string
+}
+
+// Shutdown's grace period (kmipserver/server.go: time.AfterFunc(3*time.Second, …)); the timing oracles
+// are stated relative to it.
+const graceMs = 3000
+
+type srvClient struct {
+	c       *memConn
+	err     error
+	mu      sync.Mutex
+	resps   []respObs
+	eof     bool // the client's read ended (the server closed the connection, or the client did)
+	sent    int  // requests written
+	behs    []string
+	closedS bool // closed by the scenario (kind d)
+}
+
+func (cl *srvClient) readAll(w *world) {
+	st := ttlv.NewStream(cl.c, 1<<20)
+	for {
+		var resp kmip.ResponseMessage
+		if err := st.Recv(&resp); err != nil {
+			cl.mu.Lock()
+			cl.eof = true
+			cl.mu.Unlock()
+			return
+		}
+		cl.mu.Lock()
+		cl.resps = append(cl.resps, observeResponse(&resp))
+		cl.mu.Unlock()
+		w.touch()
+	}
 }
 
 func runSrvJob(job *ltsJob) *ltsRes {
 	sc := job.Srv
 	res := &ltsRes{Idx: job.Idx}
 	add := func(oracle, key, detail string) { res.Viol = append(res.Viol, violOut{oracle, "server:" + key, detail}) }
-	waitCap = 4500 * time.Millisecond // beyond Shutdown's 3 s grace period
+	waitCap = (graceMs + 1500) * time.Millisecond // beyond Shutdown's grace period
 	defer func() { waitCap = 1200 * time.Millisecond }()
 	ts := newTestServer()
 	w := ts.w
 	r := rng.New(sc.Seed + 77)
-	switch sc.Sd {
-	case "accept1":
+	point := ""
+	switch {
+	case sc.Sd == "accept1":
 		w.acceptHold.Store(1)
-	case "accept2":
+	case sc.Sd == "accept2":
 		w.acceptHold.Store(2)
-	case "handler":
+	case sc.Sd == "handler":
 		w.handlerHold = make(chan struct{})
 		w.handlerBegun = make(chan struct{})
+	case strings.HasPrefix(sc.Sd, "p:"):
+		point = sc.Sd[2:]
 	}
 	for i := 1; i <= sc.N; i++ {
 		ci := w.info(i)
 		ci.hookFail = sc.Kind == "f"
 		if sc.Seed != 0 {
 			ci.delays = rng.New(sc.Seed + uint64(i))
+		}
+		if sc.Sd == "hook" {
+			ci.hookGate = make(chan struct{})
+		}
+		if point != "" && i == 1 {
+			ci.point = point
 		}
 	}
 	ts.start()
@@ -1523,8 +1989,9 @@ func runSrvJob(job *ltsJob) *ltsRes {
 				// the moment Shutdown returns
 				obs.HandlersAtRe = int(w.running.Load())
 				w.returned.Store(true)
-				m, _, _ := connGoroutines()
+				m, rr, ww := connGoroutines()
 				obs.OwnersAtRet = m
+				obs.RWAtRet = rr + ww
 				shutdownEnd = time.Now()
 				close(shutdownDone)
 			}()
@@ -1535,15 +2002,10 @@ func runSrvJob(job *ltsJob) *ltsRes {
 		<-shutdownDone
 	}
 	// clients
-	type client struct {
-		c    *memConn
-		err  error
-		resp int
-	}
-	clients := make([]*client, sc.N)
+	clients := make([]*srvClient, sc.N)
 	var cwg sync.WaitGroup
 	for i := 0; i < sc.N; i++ {
-		clients[i] = &client{}
+		clients[i] = &srvClient{}
 		cwg.Add(1)
 		go func() {
 			defer cwg.Done()
@@ -1554,46 +2016,51 @@ func runSrvJob(job *ltsJob) *ltsRes {
 				return
 			}
 			cl.c = c
-			beh := ""
 			switch sc.Kind {
 			case "r", "d":
-				beh = rng.Pick(r, []string{"ok", "sleep:2", "kerr:1", "pstr"})
+				cl.behs = []string{rng.Pick(r, []string{"ok", "sleep:2", "kerr:1", "pstr"})}
+			case "p":
+				cl.behs = []string{rng.Pick(r, []string{"ok", "sleep:2", "kerr:1"}), rng.Pick(r, []string{"ok", "pstr", "sleep:1"})}
+			case "n":
+				cl.behs = []string{"ok"}
 			case "w":
-				beh = "wait"
+				cl.behs = []string{"wait"}
 			}
-			if beh == "" {
-				return
+			if sc.Kind != "n" {
+				go cl.readAll(w)
 			}
-			go func() {
-				if _, err := c.Write(goodRequest(0, beh)); err != nil {
-					return
-				}
-				st := ttlv.NewStream(c, 1<<20)
-				for {
-					var resp kmip.ResponseMessage
-					if err := st.Recv(&resp); err != nil {
-						return
+			if len(cl.behs) > 0 {
+				go func() {
+					for k, beh := range cl.behs {
+						if _, err := c.Write(goodRequest(k, beh)); err != nil {
+							return
+						}
+						cl.mu.Lock()
+						cl.sent++
+						cl.mu.Unlock()
 					}
-					cl.resp++
-					w.touch()
-				}
-			}()
+				}()
+			}
 			if sc.Kind == "d" {
 				go func() {
 					time.Sleep(time.Duration(r.Intn(4000)) * time.Microsecond)
+					cl.mu.Lock()
+					cl.closedS = true
+					cl.mu.Unlock()
 					_ = c.Close()
 				}()
 			}
 		}()
 	}
 	// when Shutdown is called
-	switch sc.Sd {
-	case "any":
+	switch {
+	case sc.Sd == "any":
 		time.Sleep(time.Duration(r.Intn(5000)) * time.Microsecond)
 		callShutdown()
-	case "accept1", "accept2":
+	case sc.Sd == "accept1" || sc.Sd == "accept2":
 		select {
 		case <-w.acceptReached:
+			res.count("server.held:accept")
 			callShutdown()
 			if sc.Seed%2 == 0 {
 				<-shutdownDone // Shutdown runs to completion while the accept loop is held
@@ -1604,23 +2071,50 @@ func runSrvJob(job *ltsJob) *ltsRes {
 			callShutdown()
 		}
 		close(w.acceptRelease)
-	case "handler":
+	case sc.Sd == "handler":
 		select {
 		case <-w.handlerBegun:
+			res.count("server.held:handler")
 		case <-time.After(700 * time.Millisecond):
 		}
 		callShutdown()
 		time.Sleep(2 * time.Millisecond) // Shutdown is now waiting for the handler
 		close(w.handlerHold)
-	case "quiet":
+	case sc.Sd == "hook":
+		// Shutdown arrives while the connection is inside its connect hook
+		select {
+		case <-w.info(1).hookIn:
+			res.count("server.held:hook")
+		case <-time.After(700 * time.Millisecond):
+		}
+		callShutdown()
+		time.Sleep(time.Duration(2+r.Intn(3)) * time.Millisecond) // listener closed, receive context cancelled
+		for i := 1; i <= sc.N; i++ {
+			close(w.info(i).hookGate)
+		}
+	case point != "":
+		// Shutdown arrives while a goroutine of connection 1 is held at the yield point; the goroutine
+		// goes on once Shutdown has returned or, when Shutdown has to wait for it, a moment later
+		ci := w.info(1)
+		select {
+		case <-ci.reached:
+		case <-time.After(300 * time.Millisecond):
+		}
+		callShutdown()
+		select {
+		case <-shutdownDone:
+		case <-time.After(time.Duration(15+r.Intn(20)) * time.Millisecond):
+		}
+		close(ci.release)
+	case sc.Sd == "quiet":
 		w.waitQuiet(quietIdle, 3*time.Second, nil)
 		callShutdown()
 	}
 	select {
 	case <-shutdownDone:
 		obs.Ret = true
-	case <-time.After(7 * time.Second):
-		add("shutdown-returns", "shutdown-hangs", "Shutdown did not return within 7s")
+	case <-time.After((graceMs + 4000) * time.Millisecond):
+		add("shutdown-returns", "shutdown-hangs", fmt.Sprintf("Shutdown did not return within %d ms", graceMs+4000))
 	}
 	if w.acceptHold.Load() != 0 {
 		select {
@@ -1641,6 +2135,14 @@ func runSrvJob(job *ltsJob) *ltsRes {
 		obs.ServeErr = "running"
 	}
 	cwg.Wait()
+	if sc.Kind == "n" {
+		// the clients that did not read: is there an end of stream to be read now
+		for _, cl := range clients {
+			if cl.c != nil {
+				go cl.readAll(w)
+			}
+		}
+	}
 	m, rr, ww := settle(1500 * time.Millisecond)
 	obs.Ended = m+rr+ww == 0
 	obs.Late = w.late.Load() || obs.OwnersAtRet > 0
@@ -1655,9 +2157,19 @@ func runSrvJob(job *ltsJob) *ltsRes {
 		}
 		return 0
 	}
-	obs.Outcome = fmt.Sprintf("ret=%d serve=%s handlers=%d wg=%d conns=%s ended=%d late=%d", b2i(obs.Ret), obs.ServeErr,
-		int(w.running.Load()), m, strings.Join(obs.Conns, "."), b2i(obs.Ended), b2i(obs.Late))
+	for _, cl := range clients {
+		cl.mu.Lock()
+		n := len(cl.resps)
+		if sc.Kind == "n" {
+			n = 0 // what is read after the end does not count: the client was not reading
+		}
+		obs.Resp += n
+		cl.mu.Unlock()
+	}
+	obs.Outcome = fmt.Sprintf("ret=%d serve=%s handlers=%d wg=%d conns=%s ended=%d late=%d resp=%d rwlate=%d", b2i(obs.Ret), obs.ServeErr,
+		int(w.running.Load()), m, strings.Join(obs.Conns, "."), b2i(obs.Ended), b2i(obs.Late), obs.Resp, b2i(obs.RWAtRet > 0))
 	res.Outcomes = []string{obs.Outcome}
+	res.takeControls(w)
 	// C16 oracle
 	if obs.Ret {
 		if obs.ServeErr != "shutdown" {
@@ -1669,6 +2181,9 @@ func runSrvJob(job *ltsJob) *ltsRes {
 		if obs.OwnersAtRet != 0 {
 			add("no-handler-after", "owner-alive-at-return", fmt.Sprintf("%d connection goroutines (handleConn) alive when Shutdown returned", obs.OwnersAtRet))
 		}
+		if obs.RWAtRet != 0 {
+			add("goroutines-end", "rw-alive-at-return", fmt.Sprintf("%d per-connection goroutines (readloop / writeloop) still alive at the moment Shutdown returned: handleConn calls wg.Done after stream.Close, which does not wait for them", obs.RWAtRet))
+		}
 		if w.late.Load() {
 			add("no-handler-after", "started-after-return", "a connect hook or a handler started after Shutdown had returned")
 		}
@@ -1676,16 +2191,53 @@ func runSrvJob(job *ltsJob) *ltsRes {
 			add("goroutines-end", "goroutines-left", fmt.Sprintf("connection goroutines left after Shutdown returned and 1.5s: M=%d R=%d W=%d", m, rr, ww))
 		}
 		limit := int64(1500)
-		if sc.Kind == "w" {
-			limit = 3000 + 1500
+		if sc.Kind == "w" || sc.Kind == "n" {
+			limit = graceMs + 1500
 			// (only when the handlers were certainly running when Shutdown was called)
-			if obs.ShutdownMs < 2900 && (sc.Sd == "handler" || sc.Sd == "quiet") && w.info(1).connectN.Load() > 0 &&
+			if sc.Kind == "w" && obs.ShutdownMs < graceMs-100 && (sc.Sd == "handler" || sc.Sd == "quiet") && w.info(1).connectN.Load() > 0 &&
 				w.info(1).notCancel.Load()+w.info(2).notCancel.Load() == 0 && clients[0].err == nil {
-				add("grace", "cancelled-before-grace", fmt.Sprintf("a waiting handler was cancelled %d ms after Shutdown was called (grace period 3 s)", obs.ShutdownMs))
+				add("grace", "cancelled-before-grace", fmt.Sprintf("a waiting handler was cancelled %d ms after Shutdown was called (grace period %d ms)", obs.ShutdownMs, graceMs))
 			}
 		}
 		if obs.ShutdownMs > limit {
 			add("shutdown-returns", "shutdown-slow", fmt.Sprintf("Shutdown took %d ms", obs.ShutdownMs))
+		}
+		// every connection is closed by the server: served and terminated, or refused
+		for i, cl := range clients {
+			if cl.c == nil {
+				continue
+			}
+			if !waitFor(func() bool { cl.mu.Lock(); defer cl.mu.Unlock(); return cl.eof }, 500*time.Millisecond) {
+				what := "served"
+				if w.info(i+1).connectN.Load() == 0 {
+					what = "accepted but never served (refused)"
+				}
+				add("drained", "connection-left-open", fmt.Sprintf("connection %d (%s) is still open on the server side after Shutdown returned", i+1, what))
+			}
+		}
+	}
+	// in-flight requests: a request whose handler started is answered, in order, unless the client went away
+	// or the grace period expired
+	for i, cl := range clients {
+		ci := w.info(i + 1)
+		cl.mu.Lock()
+		resps := append([]respObs(nil), cl.resps...)
+		closedS := cl.closedS
+		cl.mu.Unlock()
+		for k, ro := range resps {
+			if k >= len(cl.behs) {
+				add("answers", "response-without-request", fmt.Sprintf("connection %d: %d responses for %d requests", i+1, len(resps), len(cl.behs)))
+				break
+			}
+			if ro.ID != k || ro.Items != 1 || (ro.Status != uint32(kmip.ResultStatusSuccess)) != expectedFailed(cl.behs[k]) {
+				add("answers", "wrong-response", fmt.Sprintf("connection %d: response %d answers request %d with status %d (%d items), handler outcome %s", i+1, k, ro.ID, ro.Status, ro.Items, cl.behs[k]))
+			}
+		}
+		patient := (sc.Kind == "r" || sc.Kind == "p") && !closedS
+		if patient && obs.Ret && obs.ShutdownMs < graceMs-100 && ci.notCancel.Load() == 0 {
+			if started := int(ci.starts.Load()); len(resps) != started {
+				add("drained", "in-flight-unanswered", fmt.Sprintf("connection %d: %d handlers ran to completion (the client stays connected and reads, Shutdown returned after %d ms, before the grace period) but %d responses arrived", i+1, started, obs.ShutdownMs, len(resps)))
+			}
 		}
 	}
 	for i := 1; i <= sc.N; i++ {
@@ -1704,6 +2256,9 @@ func runSrvJob(job *ltsJob) *ltsRes {
 		if t > 0 && ci.termSeq.Load() < ci.handlerEnds.Load() {
 			add("hooks", "terminate-before-handler-end", "the terminate hook ran before the connection's last handler ended")
 		}
+		if t > 0 && ci.handlers.Load() > 0 {
+			add("hooks", "terminate-before-handler-end", "the terminate hook has run while a handler of the connection is still running")
+		}
 	}
 	for _, cl := range clients {
 		if cl.c != nil {
@@ -1714,10 +2269,13 @@ func runSrvJob(job *ltsJob) *ltsRes {
 	return res
 }
 
+// the yield points of a connection at which Shutdown is injected (the accept loop's point is sd=accept<j>)
+var srvPoints = []string{"beforeSend", "sendLoaded", "readBeforeRx", "afterCancel", "writeBeforeErr"}
+
 func genSrvScenarios(ctx *Ctx) []*srvScen {
 	var out []*srvScen
-	sds := []string{"any", "start", "accept1", "accept2", "quiet", "handler"}
-	for _, k := range []string{"i", "r", "f", "d"} {
+	sds := []string{"any", "start", "accept1", "accept2", "quiet", "handler", "hook"}
+	for _, k := range []string{"i", "r", "f", "d", "p"} {
 		for _, n := range []int{1, 2} {
 			for _, sd := range sds {
 				if sd == "accept2" && n < 2 {
@@ -1729,22 +2287,36 @@ func genSrvScenarios(ctx *Ctx) []*srvScen {
 			}
 		}
 	}
-	// waiting handlers: each takes the 3 s grace period
-	ws := []*srvScen{{N: 1, Kind: "w", Sd: "handler"}, {N: 2, Kind: "w", Sd: "quiet"}}
+	// Shutdown while a goroutine of a connection is held at each of the connection yield points
+	for _, pt := range srvPoints {
+		for _, k := range []string{"r", "p", "d"} {
+			for _, n := range []int{1, 2} {
+				for rep := 0; rep < ctx.N(2, 8); rep++ {
+					out = append(out, &srvScen{N: n, Kind: k, Sd: "p:" + pt, Seed: uint64(rep)})
+				}
+			}
+		}
+	}
+	// waiting handlers, clients that do not read their response: each takes the 3 s grace period
+	ws := []*srvScen{{N: 1, Kind: "w", Sd: "handler"}, {N: 2, Kind: "w", Sd: "quiet"}, {N: 1, Kind: "n", Sd: "quiet"}}
 	if ctx.Thor {
 		ws = append(ws, &srvScen{N: 2, Kind: "w", Sd: "handler", Seed: 1}, &srvScen{N: 1, Kind: "w", Sd: "any", Seed: 3},
-			&srvScen{N: 2, Kind: "w", Sd: "accept2", Seed: 2}, &srvScen{N: 1, Kind: "w", Sd: "quiet", Seed: 5})
+			&srvScen{N: 2, Kind: "w", Sd: "accept2", Seed: 2}, &srvScen{N: 1, Kind: "w", Sd: "quiet", Seed: 5},
+			&srvScen{N: 2, Kind: "n", Sd: "any", Seed: 4}, &srvScen{N: 1, Kind: "n", Sd: "p:sendLoaded", Seed: 6},
+			&srvScen{N: 2, Kind: "n", Sd: "handler", Seed: 7}, &srvScen{N: 1, Kind: "w", Sd: "p:readBeforeRx", Seed: 8})
 	}
 	out = append(out, ws...)
 	r := ctx.R
+	allSds := append(append([]string{}, sds...), "p:beforeSend", "p:sendLoaded", "p:readBeforeRx", "p:afterCancel")
 	for i := ctx.N(60, 600); i > 0; i-- {
-		out = append(out, &srvScen{N: 1 + r.Intn(2), Kind: rng.Pick(r, []string{"i", "r", "f", "d", "r", "d"}), Sd: rng.Pick(r, sds), Seed: r.U64()%100000 + 2})
+		out = append(out, &srvScen{N: 1 + r.Intn(2), Kind: rng.Pick(r, []string{"i", "r", "f", "d", "r", "d", "p", "p"}), Sd: rng.Pick(r, allSds), Seed: r.U64()%100000 + 2})
 	}
 	return out
 }
 
 func runLtsServer(ctx *Ctx) {
 	var scens []*srvScen
+	var extra []*ltsJob
 	if len(ctx.Replay) > 0 {
 		for _, l := range ctx.Replay {
 			if !strings.HasPrefix(l, "lts.member server ") {
@@ -1761,15 +2333,45 @@ func runLtsServer(ctx *Ctx) {
 				scens = append(scens, &c)
 			}
 		}
+		extra = replayExtraJobs(ctx.Replay)
 	} else {
 		scens = genSrvScenarios(ctx)
+		for rep := 0; rep < ctx.N(1, 4); rep++ {
+			for v := 0; v < 2; v++ {
+				extra = append(extra, &ltsJob{Sys: "tls", TLS: &tlsScen{Kind: "stalled-shutdown", Var: v}},
+					&ltsJob{Sys: "tls", TLS: &tlsScen{Kind: "silent-peer", Var: v}})
+			}
+			extra = append(extra, &ltsJob{Sys: "tls", TLS: &tlsScen{Kind: "served-shutdown"}})
+		}
 	}
 	jobs := make([]*ltsJob, len(scens))
 	for i, sc := range scens {
 		jobs[i] = &ltsJob{Idx: i, Sys: "server", Srv: sc}
 	}
+	for _, j := range extra {
+		j.Idx = len(jobs)
+		jobs = append(jobs, j)
+	}
 	results := runJobs(jobs, ctx.N(6, 8), 12*time.Second)
 	seen := map[string]bool{}
+	points := map[string]int{}
+	unresolved := 0
+	for _, jr := range results {
+		if jr != nil && jr.res != nil {
+			for k, n := range jr.res.Points {
+				points[k] += n
+			}
+			for k, n := range jr.res.Counts {
+				ctx.Res.Distribution[k] += n
+			}
+			unresolved += jr.res.Unresolved
+		}
+	}
+	for _, j := range extra {
+		if j.Sys == "tls" {
+			reportExtraJob(ctx, "C16", "tls", j.TLS.text(), results[j.Idx])
+		}
+	}
 	for i, sc := range scens {
 		jr := results[i]
 		ctx.current = "lts.member server " + sc.text()
@@ -1801,6 +2403,29 @@ func runLtsServer(ctx *Ctx) {
 		ctx.Res.Count("server.k=" + sc.Kind)
 		ctx.Res.Count("server.sd=" + sc.Sd)
 		ctx.Res.Count("server.n=" + strconv.Itoa(sc.N))
+	}
+	// positive controls on the schedule director
+	if len(ctx.Replay) == 0 {
+		for _, pt := range []string{"srv.accept.beforeAdd", "srv.read.beforeRx", "srv.beforeSend", "srv.send.loaded", "srv.terminate.afterCancel"} {
+			ctx.Res.Distribution["server.yield:"+pt] += points[pt]
+			if points[pt] == 0 {
+				ctx.Res.Fail("yield point " + pt + " was never reached in the whole run (hook removed or renamed in kmipserver?)")
+			}
+		}
+		for _, pt := range srvPoints {
+			ctx.Res.Distribution["server.held:"+pt] += points["held:"+pt]
+			if points["held:"+pt] == 0 && pt != "writeBeforeErr" {
+				ctx.Res.Fail("Shutdown was never injected while a goroutine was held at " + pt)
+			}
+		}
+		for _, k := range []string{"server.held:accept", "server.held:handler", "server.held:hook", "tls.stalled-in-handshake", "tls.served", "tls.neighbour-served"} {
+			if ctx.Res.Distribution[k] == 0 {
+				ctx.Res.Fail("coverage floor: " + k + " = 0")
+			}
+		}
+	}
+	if unresolved != 0 {
+		ctx.Res.Fail(fmt.Sprintf("%d yield points passed an object that could not be mapped to a harness connection", unresolved))
 	}
 }
 
